@@ -60,6 +60,24 @@ theorem numbering_rule {evs : List Event} {cfg : Cfg} {m : Maps} (h : assign evs
 example : (assign [.unnamed, .named "x", .numbered 7, .named "x", .noncap] {}).map (·.evNums) =
     some [some 1, some 2, some 7, some 2, none] := by decide
 
+/-- **C17, numbering rule, named groups (default order).** The distinct names of the pattern, in
+    order of first appearance, get ascending numbers: the first name the least number above the
+    count of unnamed groups (0 under ExplicitCapture) that no group claims explicitly, every further
+    name the least such number above its predecessor's (`ChainRule`: `prev < k`, `k` is not an
+    explicit number, every number strictly between is one). -/
+theorem named_numbers_rule {evs : List Event} {cfg : Cfg} {m : Maps} (h : assign evs cfg = some m)
+    (ho : cfg.ord = false) (hg : GoodNames evs) :
+    ChainRule (groupNumberFromName m) (fun c => c ∈ explicitNumbers evs)
+      (if cfg.explicitCapture then 0 else countUnnamed evs) (namesInOrder evs) :=
+  assign_named_rule h ho hg
+
+/-- `(?<y>a)(b)(?<3>c)(?<x>d)(e)(?<y>f)(?<2>g)`: the unnamed groups are 1 and 2, the numbers 2 and 3
+    are also claimed explicitly, so y ↦ 4 and x ↦ 5 -/
+example : (assign [.named "y", .unnamed, .numbered 3, .named "x", .unnamed, .named "y", .numbered 2] {}).map
+    (fun m => (namesInOrder [.named "y", .unnamed, .numbered 3, .named "x", .unnamed, .named "y", .numbered 2],
+               groupNumberFromName m "y", groupNumberFromName m "x", m.evNums)) =
+    some (["y", "x"], some 4, some 5, [some 4, some 1, some 3, some 5, some 2, some 4, some 2]) := by decide
+
 /-- **C17, numbering rule (pattern order).** With MaintainCaptureOrder or ECMAScript the numbers
     are handed out in one pass over the pattern: every unnamed group and every first occurrence of
     a name takes the next number, a repeated name shares the number of its first occurrence
